@@ -246,6 +246,71 @@ def fresh(typ, name='fresh'):
         return proxy_for_type(typ, name + space.uniq())
 
 
+class _PristineServer:
+    """A child forked before the first run: it never executes the scenario
+    itself but forks one grandchild per request, so every run it answers
+    starts from the state a fresh ddSMT process has (no module-level state
+    left behind by earlier runs of the exploration)."""
+
+    def __init__(self, run):
+        import os
+        import pickle
+        r1, w1 = os.pipe()
+        r2, w2 = os.pipe()
+        self.pid = os.fork()
+        if self.pid == 0:
+            os.close(w1)
+            os.close(r2)
+            fin = os.fdopen(r1, 'rb')
+            fout = os.fdopen(w2, 'wb')
+            while True:
+                try:
+                    vec = pickle.load(fin)
+                except EOFError:
+                    os._exit(0)
+                rr, ww = os.pipe()
+                p = os.fork()
+                if p == 0:
+                    os.close(rr)
+                    try:
+                        v, rd = run(vec)
+                        res = (v, sorted(rd))
+                    except BaseException as e:   # noqa: B902
+                        res = (f'__error__ {type(e).__name__}: {e}', [])
+                    with os.fdopen(ww, 'wb') as f:
+                        pickle.dump(res, f)
+                    os._exit(0)
+                os.close(ww)
+                with os.fdopen(rr, 'rb') as f:
+                    data = f.read()
+                os.waitpid(p, 0)
+                fout.write(len(data).to_bytes(8, 'little') + data)
+                fout.flush()
+        os.close(r1)
+        os.close(w2)
+        self.fout = os.fdopen(w1, 'wb')
+        self.fin = os.fdopen(r2, 'rb')
+
+    def run(self, vec):
+        import pickle
+        pickle.dump(list(vec), self.fout)
+        self.fout.flush()
+        n = int.from_bytes(self.fin.read(8), 'little')
+        v, rd = pickle.loads(self.fin.read(n))
+        if isinstance(v, str) and v.startswith('__error__'):
+            raise RuntimeError(v)
+        return v, set(rd)
+
+    def close(self):
+        import os
+        try:
+            self.fout.close()
+            self.fin.close()
+            os.waitpid(self.pid, 0)
+        except Exception:
+            pass
+
+
 def explore_choices(run, nbits, budget_s=60.0, pin=(), samples=2):
     """Exhaustive exploration of boolean choice vectors with z3 as the
     bookkeeper (all-SAT with generalisation to the bits actually read).
@@ -271,6 +336,35 @@ def explore_choices(run, nbits, budget_s=60.0, pin=(), samples=2):
     msg = None
     smp = []
     status = 'UNKNOWN'
+    # runs of one exploration share a process; ddSMT runs once per process.
+    # A violation seen in-process is therefore repeated in a pristine state
+    # (forked before the first run); if it does not show there, earlier runs
+    # left state behind, and the whole exploration is repeated with every
+    # run in a pristine state.
+    try:
+        server = _PristineServer(run)
+    except Exception:
+        server = None
+    pristine_mode = False
+    try:
+        return _explore_choices_loop(run, nbits, budget_s, pin, samples, t0,
+                                     bits, s, server)
+    finally:
+        if server is not None:
+            server.close()
+
+
+def _explore_choices_loop(run, nbits, budget_s, pin, samples, t0, bits, s,
+                          server):
+    checks = 0
+    stime = 0.0
+    paths = ok = skipped = 0
+    cex = None
+    msg = None
+    smp = []
+    status = 'UNKNOWN'
+    pristine_mode = False
+    restarts = 0
     while True:
         if time.time() - t0 > budget_s:
             break
@@ -286,7 +380,24 @@ def explore_choices(run, nbits, budget_s=60.0, pin=(), samples=2):
         m = s.model()
         vec = [bool(z3.is_true(m.eval(b, model_completion=True)))
                for b in bits]
-        verdict, read = run(vec)
+        if pristine_mode:
+            verdict, read = server.run(vec)
+        else:
+            verdict, read = run(vec)
+            if verdict is not None and verdict != 'skip' \
+                    and server is not None:
+                v2, read2 = server.run(vec)
+                if v2 is None or v2 == 'skip':
+                    # state left behind by earlier runs: start again
+                    pristine_mode = True
+                    restarts += 1
+                    s.reset()
+                    for i, v in enumerate(pin):
+                        s.add(bits[i] == bool(v))
+                    paths = ok = skipped = 0
+                    smp = []
+                    continue
+                verdict, read = v2, read2
         paths += 1
         read = sorted(i for i in set(read) | set(range(len(pin)))
                       if i < nbits)
@@ -314,5 +425,7 @@ def explore_choices(run, nbits, budget_s=60.0, pin=(), samples=2):
         'samples': smp, 'solver_checks': checks,
         'solver_seconds': round(stime, 3), 'solver_unknown': 0,
         'wall_s': round(time.time() - t0, 2), 'engine_error': None,
-        'engine': 'z3 all-SAT over choice vectors',
+        'engine': 'z3 all-SAT over choice vectors' + (
+            ' (every run in a pristine forked state: in-process runs left '
+            'state behind)' if pristine_mode else ''),
     }
